@@ -26,10 +26,10 @@ pub fn all() -> Vec<CheckDef> {
                 Family {
                     variant: "",
                     name: "free-strong",
-                    strategy: |_| rcgen::free_case(rcgen::W_STRONG, 4, 30, 8, SITES_RC),
+                    strategy: |t| rcgen::free_case(rcgen::W_STRONG, 4, t.pick(30, 45), t.pick(8, 14), SITES_RC),
                     cases: |t| t.pick(24_000, 240_000),
                 },
-                Family { variant: "", name: "roles-reader-mutators-collector", strategy: |_| rcgen::role_case(20, 10, SITES_RC), cases: |t| t.pick(16_000, 160_000) },
+                Family { variant: "", name: "roles-reader-mutators-collector", strategy: |t| rcgen::role_case(t.pick(20, 30), t.pick(10, 16), SITES_RC), cases: |t| t.pick(16_000, 160_000) },
                 Family { variant: "", name: "T2-upgrade-vs-last-drop", strategy: |_| templates::t2(), cases: |t| t.pick(12_000, 120_000) },
                 Family { variant: "", name: "T1-two-owner-cascade", strategy: |_| templates::t1(), cases: |t| t.pick(4_000, 40_000) },
                 Family { variant: "", name: "T4-upgrade-racing-cascade", strategy: |_| templates::t4(), cases: |t| t.pick(12_000, 120_000) },
@@ -47,10 +47,10 @@ pub fn all() -> Vec<CheckDef> {
                 Family {
                     variant: "",
                     name: "free-strong",
-                    strategy: |_| rcgen::free_case(rcgen::W_STRONG, 4, 30, 8, SITES_RC),
+                    strategy: |t| rcgen::free_case(rcgen::W_STRONG, 4, t.pick(30, 45), t.pick(8, 14), SITES_RC),
                     cases: |t| t.pick(20_000, 200_000),
                 },
-                Family { variant: "", name: "roles-reader-mutators-collector", strategy: |_| rcgen::role_case(20, 10, SITES_RC), cases: |t| t.pick(30_000, 300_000) },
+                Family { variant: "", name: "roles-reader-mutators-collector", strategy: |t| rcgen::role_case(t.pick(20, 30), t.pick(10, 16), SITES_RC), cases: |t| t.pick(30_000, 300_000) },
                 Family { variant: "", name: "T1-two-owner-cascade", strategy: |_| templates::t1(), cases: |t| t.pick(40_000, 400_000) },
                 Family { variant: "", name: "T2-upgrade-vs-last-drop", strategy: |_| templates::t2(), cases: |t| t.pick(4_000, 40_000) },
                 Family { variant: "", name: "T3-reader-on-chain-harris-unlink", strategy: |_| templates::t3(), cases: |t| t.pick(16_000, 160_000) },
@@ -69,13 +69,13 @@ pub fn all() -> Vec<CheckDef> {
                 Family {
                     variant: "",
                     name: "free-weak",
-                    strategy: |_| rcgen::free_case(rcgen::W_WEAK, 4, 30, 8, SITES_RC),
+                    strategy: |t| rcgen::free_case(rcgen::W_WEAK, 4, t.pick(30, 45), t.pick(8, 14), SITES_RC),
                     cases: |t| t.pick(30_000, 300_000),
                 },
                 Family {
                     variant: "",
                     name: "seq-weak",
-                    strategy: |_| rcgen::seq_case(rcgen::W_WEAK, 40),
+                    strategy: |t| rcgen::seq_case(rcgen::W_WEAK, t.pick(40, 80)),
                     cases: |t| t.pick(10_000, 100_000),
                 },
                 Family { variant: "", name: "T6-zero-weak-recount", strategy: |_| templates::t6(), cases: |t| t.pick(30_000, 300_000) },
@@ -93,19 +93,19 @@ pub fn all() -> Vec<CheckDef> {
                 Family {
                     variant: "",
                     name: "seq-graphs",
-                    strategy: |_| rcgen::seq_case(rcgen::W_STRONG, 60),
+                    strategy: |t| rcgen::seq_case(rcgen::W_STRONG, t.pick(60, 120)),
                     cases: |t| t.pick(20_000, 200_000),
                 },
                 Family {
                     variant: "",
                     name: "free-strong",
-                    strategy: |_| rcgen::free_case(rcgen::W_STRONG, 4, 30, 8, SITES_RC),
+                    strategy: |t| rcgen::free_case(rcgen::W_STRONG, 4, t.pick(30, 45), t.pick(8, 14), SITES_RC),
                     cases: |t| t.pick(16_000, 160_000),
                 },
                 Family {
                     variant: "",
                     name: "free-weak",
-                    strategy: |_| rcgen::free_case(rcgen::W_WEAK, 3, 30, 6, SITES_RC),
+                    strategy: |t| rcgen::free_case(rcgen::W_WEAK, 3, t.pick(30, 45), t.pick(6, 11), SITES_RC),
                     cases: |t| t.pick(6_000, 60_000),
                 },
                 Family { variant: "", name: "T2-upgrade-vs-last-drop", strategy: |_| templates::t2(), cases: |t| t.pick(12_000, 120_000) },
@@ -125,13 +125,13 @@ pub fn all() -> Vec<CheckDef> {
                 Family {
                     variant: "",
                     name: "seq-weak",
-                    strategy: |_| rcgen::seq_case(rcgen::W_WEAK, 40),
+                    strategy: |t| rcgen::seq_case(rcgen::W_WEAK, t.pick(40, 80)),
                     cases: |t| t.pick(12_000, 120_000),
                 },
                 Family {
                     variant: "",
                     name: "free-weak",
-                    strategy: |_| rcgen::free_case(rcgen::W_WEAK, 4, 30, 8, SITES_RC),
+                    strategy: |t| rcgen::free_case(rcgen::W_WEAK, 4, t.pick(30, 45), t.pick(8, 14), SITES_RC),
                     cases: |t| t.pick(16_000, 160_000),
                 },
                 Family { variant: "", name: "T2-upgrade-vs-last-drop", strategy: |_| templates::t2(), cases: |t| t.pick(12_000, 120_000) },
@@ -150,13 +150,13 @@ pub fn all() -> Vec<CheckDef> {
                 Family {
                     variant: "",
                     name: "seq-cell",
-                    strategy: |_| rcgen::seq_case(rcgen::W_CELL, 50),
+                    strategy: |t| rcgen::seq_case(rcgen::W_CELL, t.pick(50, 100)),
                     cases: |t| t.pick(16_000, 160_000),
                 },
                 Family {
                     variant: "",
                     name: "free-cell",
-                    strategy: |_| rcgen::free_case(rcgen::W_CELL, 4, 24, 8, SITES_RC),
+                    strategy: |t| rcgen::free_case(rcgen::W_CELL, 4, t.pick(24, 36), t.pick(8, 14), SITES_RC),
                     cases: |t| t.pick(20_000, 200_000),
                 },
                 Family { variant: "", name: "T7-restamp-then-cas", strategy: |_| templates::t7(), cases: |t| t.pick(16_000, 160_000) },
@@ -173,13 +173,13 @@ pub fn all() -> Vec<CheckDef> {
                 Family {
                     variant: "",
                     name: "seq-wcell",
-                    strategy: |_| rcgen::seq_case(rcgen::W_WCELL, 50),
+                    strategy: |t| rcgen::seq_case(rcgen::W_WCELL, t.pick(50, 100)),
                     cases: |t| t.pick(16_000, 160_000),
                 },
                 Family {
                     variant: "",
                     name: "free-wcell",
-                    strategy: |_| rcgen::free_case(rcgen::W_WCELL, 4, 24, 8, SITES_RC),
+                    strategy: |t| rcgen::free_case(rcgen::W_WCELL, 4, t.pick(24, 36), t.pick(8, 14), SITES_RC),
                     cases: |t| t.pick(20_000, 200_000),
                 },
                 Family { variant: "", name: "T7w-restamp-then-weak-cas", strategy: |_| templates::t7w(), cases: |t| t.pick(16_000, 160_000) },
@@ -202,7 +202,7 @@ pub fn all() -> Vec<CheckDef> {
                 Family {
                     variant: "",
                     name: "seq-bulk",
-                    strategy: |_| rcgen::seq_case(rcgen::W_BULK, 40),
+                    strategy: |t| rcgen::seq_case(rcgen::W_BULK, t.pick(40, 80)),
                     cases: |t| t.pick(20_000, 200_000),
                 },
             ],
@@ -269,8 +269,8 @@ pub fn all() -> Vec<CheckDef> {
         CheckDef {
             id: "C13",
             families: vec![
-                Family { variant: "", name: "ebr-free", strategy: |_| ebrworld::free(ebrworld::EW_DEFAULT, 4, 24, 10), cases: |t| t.pick(40_000, 400_000) },
-                Family { variant: "", name: "ebr-exit", strategy: |_| ebrworld::free(ebrworld::EW_EXIT, 3, 16, 8), cases: |t| t.pick(10_000, 100_000) },
+                Family { variant: "", name: "ebr-free", strategy: |t| ebrworld::free(ebrworld::EW_DEFAULT, 4, t.pick(24, 36), t.pick(10, 17)), cases: |t| t.pick(40_000, 400_000) },
+                Family { variant: "", name: "ebr-exit", strategy: |t| ebrworld::free(ebrworld::EW_EXIT, 3, t.pick(16, 24), t.pick(8, 14)), cases: |t| t.pick(10_000, 100_000) },
                 Family { variant: "", name: "private-collector", strategy: |_| ebrworld::private(ebrworld::EW_DEFAULT, 50), cases: |t| t.pick(10_000, 100_000) },
             ],
             exec: ebrworld::exec,
@@ -282,8 +282,8 @@ pub fn all() -> Vec<CheckDef> {
         CheckDef {
             id: "C14",
             families: vec![
-                Family { variant: "", name: "ebr-advance", strategy: |_| ebrworld::free(ebrworld::EW_ADVANCE, 4, 30, 12), cases: |t| t.pick(40_000, 400_000) },
-                Family { variant: "", name: "ebr-free", strategy: |_| ebrworld::free(ebrworld::EW_DEFAULT, 4, 24, 10), cases: |t| t.pick(16_000, 160_000) },
+                Family { variant: "", name: "ebr-advance", strategy: |t| ebrworld::free(ebrworld::EW_ADVANCE, 4, t.pick(30, 45), t.pick(12, 20)), cases: |t| t.pick(40_000, 400_000) },
+                Family { variant: "", name: "ebr-free", strategy: |t| ebrworld::free(ebrworld::EW_DEFAULT, 4, t.pick(24, 36), t.pick(10, 17)), cases: |t| t.pick(16_000, 160_000) },
             ],
             exec: ebrworld::exec,
             rule: "the same worlds as C13, biased to many short critical sections and re-pins; at every yield point (at most one atomic access apart) the global epoch must be equal to or one more than the previous sample, and every participant inside a checked interval (from the return of its outermost pin/reactivate until it shows unpinned after the matching drop was invoked, i.e. including unpin's collection loop and all internal re-pins) must be within one epoch of the global epoch. Non-trivial = the epoch advanced at least twice while some thread was inside a checked interval and that thread re-pinned at least once inside one; distinct = distinct hash of the case",
@@ -294,8 +294,8 @@ pub fn all() -> Vec<CheckDef> {
         CheckDef {
             id: "C15",
             families: vec![
-                Family { variant: "", name: "ebr-exit", strategy: |_| ebrworld::free(ebrworld::EW_EXIT, 4, 16, 8), cases: |t| t.pick(30_000, 300_000) },
-                Family { variant: "", name: "ebr-free", strategy: |_| ebrworld::free(ebrworld::EW_DEFAULT, 4, 24, 10), cases: |t| t.pick(16_000, 160_000) },
+                Family { variant: "", name: "ebr-exit", strategy: |t| ebrworld::free(ebrworld::EW_EXIT, 4, t.pick(16, 24), t.pick(8, 14)), cases: |t| t.pick(30_000, 300_000) },
+                Family { variant: "", name: "ebr-free", strategy: |t| ebrworld::free(ebrworld::EW_DEFAULT, 4, t.pick(24, 36), t.pick(10, 17)), cases: |t| t.pick(16_000, 160_000) },
                 Family { variant: "", name: "private-collector", strategy: |_| ebrworld::private(ebrworld::EW_EXIT, 50), cases: |t| t.pick(16_000, 160_000) },
             ],
             exec: ebrworld::exec,
@@ -307,9 +307,9 @@ pub fn all() -> Vec<CheckDef> {
         CheckDef {
             id: "C16",
             families: vec![
-                Family { variant: "", name: "ebr-guards", strategy: |_| ebrworld::free(ebrworld::EW_GUARDS, 3, 30, 6), cases: |t| t.pick(40_000, 400_000) },
+                Family { variant: "", name: "ebr-guards", strategy: |t| ebrworld::free(ebrworld::EW_GUARDS, 3, t.pick(30, 45), t.pick(6, 11)), cases: |t| t.pick(40_000, 400_000) },
                 Family { variant: "", name: "private-collector", strategy: |_| ebrworld::private(ebrworld::EW_GUARDS, 60), cases: |t| t.pick(16_000, 160_000) },
-                Family { variant: "da", name: "ebr-guards-debug-assertions", strategy: |_| ebrworld::free(ebrworld::EW_GUARDS, 3, 30, 6), cases: |t| t.pick(12_000, 120_000) },
+                Family { variant: "da", name: "ebr-guards-debug-assertions", strategy: |t| ebrworld::free(ebrworld::EW_GUARDS, 3, t.pick(30, 45), t.pick(6, 11)), cases: |t| t.pick(12_000, 120_000) },
                 Family { variant: "da", name: "private-collector-debug-assertions", strategy: |_| ebrworld::private(ebrworld::EW_GUARDS, 60), cases: |t| t.pick(12_000, 120_000) },
             ],
             exec: ebrworld::exec,
@@ -331,7 +331,7 @@ pub fn all() -> Vec<CheckDef> {
             id: "C18",
             families: vec![
                 Family { variant: "", name: "list-histories", strategy: |_| queuelist::list_strategy(), cases: |t| t.pick(60_000, 600_000) },
-                Family { variant: "", name: "registry-churn", strategy: |_| ebrworld::free(ebrworld::EW_CHURN, 4, 10, 14), cases: |t| t.pick(60_000, 600_000) },
+                Family { variant: "", name: "registry-churn", strategy: |t| ebrworld::free(ebrworld::EW_CHURN, 4, t.pick(10, 15), t.pick(14, 23)), cases: |t| t.pick(60_000, 600_000) },
             ],
             exec: queuelist::exec_c18,
             rule: "2-4 scheduled threads, <=8 ops each (insert, logical delete once by the owner or of a prefilled element, full traversal) on the collector's internal intrusive list type, with preemption inside insert's CAS loop, the iterator's unlink CAS and the delete mark. Oracle: a traversal that completed without reporting a stall visited every element whose insert had returned before the traversal was invoked and whose delete was not invoked before it returned; no element is visited before its insert was invoked; after deleting everything and clean-up traversals every element was finalized exactly once and the list is empty. Second family (registry-churn): 2-4 scheduled threads with short pin/round/defer programs on the default collector that exit (unregister) at generated points while others traverse the real participant registry inside try_advance; an epoch advancement that leaves a registered pinned participant more than one epoch behind has overlooked it. Non-trivial = a traversal overlapped both an insert and a delete (first family); a thread exited while a peer was pinned and the epoch advanced while some thread was pinned (second family); distinct = distinct hash of the case",
